@@ -103,7 +103,16 @@ func (x *exec) beforeCallAsserts(s *State, key string, pos token.Pos) {
 	}
 	for _, cl := range t.contract.Of("assertcall") {
 		parts := strings.SplitN(cl.Text, "::", 2)
-		if len(parts) != 2 || !strings.HasSuffix(key, strings.TrimSpace(parts[0])) {
+		if len(parts) != 2 {
+			continue
+		}
+		pat := strings.TrimSpace(parts[0])
+		if strings.HasPrefix(pat, "!") {
+			// "!name": every callee EXCEPT those whose key ends in name
+			if strings.HasSuffix(key, strings.TrimSpace(pat[1:])) {
+				continue
+			}
+		} else if !strings.HasSuffix(key, pat) {
 			continue
 		}
 		sub := &Clause{Kind: "assertcall", Text: strings.TrimSpace(parts[1]), Label: cl.Label, File: cl.File, Line: cl.Line}
